@@ -1188,10 +1188,13 @@ class MiniInterp:
         return _Iter(out)
 
     def compare(self, op, a, b):
-        if isinstance(op, ast.Is):
-            return a is b or (a is None and b is None)
-        if isinstance(op, ast.IsNot):
-            return not (a is b or (a is None and b is None))
+        if isinstance(op, (ast.Is, ast.IsNot)):
+            same = a is b or (a is None and b is None)
+            if not same and isinstance(a, T) and isinstance(b, T) and a and b and a[0] in ("class", "builtin", "external") and a[0] == b[0]:
+                same = tuple(a) == tuple(b)          # classes and builtin types are singletons: identity is equality of what they name
+            if not same and isinstance(a, (bool, EnumInt)) and isinstance(b, (bool, EnumInt)) and type(a) is type(b):
+                same = a == b and getattr(a, "name", None) == getattr(b, "name", None)
+            return same if isinstance(op, ast.Is) else not same
         if isinstance(op, (ast.In, ast.NotIn)):
             r = self.contains(b, a)
             return r if isinstance(op, ast.In) else not r
@@ -1222,6 +1225,8 @@ class MiniInterp:
             raise Unknown("comparison")
 
     def getattr(self, obj, attr, fi, node):
+        if attr == "__class__" and not (isinstance(obj, Sym) and ("__class__" in obj.fields or obj.cls is None)):
+            return self.type_of(obj)
         if isinstance(obj, SymDict):
             if attr in obj.fields:
                 return obj.fields[attr]
@@ -2065,6 +2070,23 @@ class MiniInterp:
                 env[nm] = v
         return env
 
+    def type_of(self, v):
+        """the class of a value as a value of the interpreter"""
+        if isinstance(v, (Sym, SymDict, EnumInt)) and getattr(v, "cls", None) is not None:
+            return T("class", v.cls)
+        if isinstance(v, PygT):
+            return T("external", "pygments.token._TokenType")
+        if isinstance(v, bool):
+            return T("builtin", "bool")
+        for ty in (int, float, str, bytes, list, tuple, dict):
+            if type(v) is ty or (ty is dict and isinstance(v, dict) and not isinstance(v, SymDict)) or (ty is list and type(v) is Deque and False):
+                return T("builtin", ty.__name__)
+        if v is None:
+            return T("builtin", "NoneType")
+        if isinstance(v, ISet) or isinstance(v, (set, frozenset)):
+            return T("builtin", "set")
+        raise Unknown(f"type of {type(v).__name__}")
+
     def has_attr(self, obj, name: str) -> bool:
         if isinstance(obj, Sym):
             if name in obj.fields:
@@ -2111,6 +2133,8 @@ class MiniInterp:
             if name == "setattr" and len(args) == 3 and isinstance(args[1], str) and isinstance(args[0], Sym):
                 args[0].fields[args[1]] = args[2]
                 return None
+            if name == "type" and len(args) == 1 and not kwargs:
+                return self.type_of(args[0])
             if name == "len":
                 a0 = args[0]
                 if isinstance(a0, T) and a0 and a0[0] == "class":
